@@ -3,6 +3,7 @@
 package hx
 
 import (
+	"time"
 	"github.com/goghcrow/yae/parser/ast"
 	"github.com/goghcrow/yae/types"
 	"github.com/goghcrow/yae/val"
@@ -138,8 +139,11 @@ func progVals(p totalProg) map[string]*val.Val {
 	vals := map[string]*val.Val{}
 	for i, n := range p.names {
 		if p.src == "t - v" {
-			secs := [...]int64{0, 1, 1700000000, -1}
-			vals[n] = val.Time(timeUnix(secs[sv.Choice(n+".time", len(secs))]))
+			// host instants carry nanoseconds: two of the six have a sub-second part
+			secs := [...]int64{0, 1, 1700000000, -1, 1700000000, 1}
+			nsec := [...]int64{0, 0, 0, 0, 500000000, 900000000}
+			k := sv.Choice(n+".time", len(secs))
+			vals[n] = val.Time(time.Unix(secs[k], nsec[k]))
 			continue
 		}
 		vals[n] = AnyVal(p.tys[i], n)
